@@ -751,10 +751,12 @@ impl Monitor for C18 {
             let dump = w.raw_dump(&w.vamms[i]);
             let mut heights = vec![];
             let mut latest: Option<RawSnap> = None;
-            for (k, v) in dump {
-                if k.starts_with(b"\x00\x10reserve_snapshot") && k.len() == 18 + 8 {
-                    if let Ok(s) = serde_json::from_slice::<RawSnap>(&v) {
-                        heights.push(s.block_height);
+            // snapshot records are recognised by shape (any key), the latest one is the last in key order among
+            // those of the highest block
+            for (_k, v) in dump {
+                if let Ok(s) = serde_json::from_slice::<RawSnap>(&v) {
+                    heights.push(s.block_height);
+                    if latest.as_ref().map(|l| s.block_height >= l.block_height).unwrap_or(true) {
                         latest = Some(s);
                     }
                 }
